@@ -18,7 +18,7 @@ for f in ['/verif/findings/known.json']+sorted(glob.glob('/verif/findings/known.
     for e in json.load(open(f)):
         if e.get('status')=='open': op[e['id']]=e
 matched=set()
-for f in glob.glob('/verif/evidence/*.json'):
+for f in glob.glob('/verif/evidence/*.json')+glob.glob('/verif/thorough-evidence/*.json'):
     for l in json.load(open(f))['coverage'].get('known_findings_matched') or []:
         matched.add(l.split(' x')[0])
 for i in sorted(op):
